@@ -81,6 +81,67 @@ inductive Micro
   | exitIdle                   -- `break loop` because the listener is gone and nothing is reloading
   deriving DecidableEq, Repr
 
+/-! ## Retirement of the old generation, with an explicit clock (time unit: ns)
+
+`startControlPlaneRetirement` computes the drain budget with `remainingReloadRetirementBudget`
+(`reloadTotalSwitchBudget` minus the time since the request arrived, clamped at 0) and spawns the
+retirement goroutine: abort at once (`--abort` / no dialer overlap), or `waitForControlPlaneDrain`:
+return when the old generation has no session (left), when the next reload cancels this
+retirement, or when the budget timer fires — a timer armed with a duration ≤ 0 fires at once.
+`retirementDone` closes right after (`ControlPlane.Close` has its own 5 s bound, not modelled). -/
+
+/-- `reloadTotalSwitchBudget` (10 s). -/
+def totalSwitchBudget : Nat := 10000000000
+
+/-- `remainingReloadRetirementBudget(startedAt, budget)`; `age = time.Since(startedAt)`. -/
+def remBudget (zeroStart : Bool) (age : Int) (budget : Int) : Int :=
+  if budget ≤ 0 then 0
+  else if zeroStart then budget
+  else if budget - age < 0 then 0 else budget - age
+
+def optMin (t : Nat) : Option Nat → Nat
+  | none => t
+  | some x => min t x
+
+/-- when `waitForControlPlaneDrain(maxWait)` returns, measured from its call: `sessions` live
+sessions at the call, the last of them ending at `idleAt` (`none` = never), the context cancelled
+at `cancelAt`. -/
+def drainTime (maxWait : Int) (sessions : Nat) (idleAt cancelAt : Option Nat) : Nat :=
+  if sessions = 0 then 0 else optMin (optMin maxWait.toNat idleAt) cancelAt
+
+inductive DrainRes | idle | canceled | timeout
+  deriving DecidableEq, Repr
+
+/-- the results `waitForControlPlaneDrain` may return (several when events coincide: Go's `select`
+picks any ready case). -/
+def drainResults (maxWait : Int) (sessions : Nat) (idleAt cancelAt : Option Nat) : List DrainRes :=
+  if sessions = 0 then [.idle] else
+  let t := drainTime maxWait sessions idleAt cancelAt
+  (if idleAt = some t then [.idle] else []) ++ (if cancelAt = some t then [.canceled] else []) ++
+  (if maxWait.toNat = t then [.timeout] else [])
+
+/-- what the environment decides about one retirement. -/
+structure RetScenario where
+  zeroStart : Bool := false   -- pendingReloadRequestedAt.IsZero()
+  abort : Bool := false       -- abort file present
+  overlap : Bool := false     -- InheritDialerHealthFrom found a common dialer
+  age : Int := 0              -- time since the request arrived, at retirement start
+  sessions : Nat := 0         -- live sessions of the old generation
+  idleAt : Option Nat := none
+  cancelAt : Option Nat := none
+  deriving DecidableEq, Repr
+
+def RetScenario.budget (sc : RetScenario) : Int := remBudget sc.zeroStart sc.age totalSwitchBudget
+
+/-- when `retirementDone` closes, measured from `startControlPlaneRetirement`. -/
+def retireDoneAt (sc : RetScenario) : Nat :=
+  if sc.abort || !sc.overlap then 0 else drainTime sc.budget sc.sessions sc.idleAt sc.cancelAt
+
+/-- was the old generation force-aborted (`AbortConnections`)? -/
+def retireAborted (sc : RetScenario) : List Bool :=
+  if sc.abort || !sc.overlap then [true]
+  else (drainResults sc.budget sc.sessions sc.idleAt sc.cancelAt).map fun r => r != .idle
+
 structure St where
   pending : Bool := false
   active : Bool := false
@@ -103,6 +164,12 @@ structure St where
   gEnd : Nat := 0
   gRead : Nat := 0
   gWrite : Nat := 0
+  /-- the scenario the environment has chosen for the next retirement to start. -/
+  nextRet : RetScenario := {}
+  /-- time left until the retirement published in `pendingRetirementDone` completes by itself
+  (meaningful while it is open), and the same for the one a blocked G is waiting for. -/
+  mgrLeft : Nat := 0
+  gLeft : Nat := 0
   deriving DecidableEq, Repr
 
 def init : St := {}
@@ -135,7 +202,7 @@ def exec (s : St) : Micro → St × List Micro
   | .setStaged b => ({ s with staged := b }, [])
   | .clearRet => ({ s with retDone := none }, [])
   | .beginHandoff => ({ s with reloading := true, notify := true }, [])
-  | .startRet => ({ s with retDone := some false }, [])
+  | .startRet => ({ s with retDone := some false, mgrLeft := retireDoneAt s.nextRet }, [])
   | .notifyM => ({ s with notify := true }, [])
   | .fatal => ({ s with exited := true }, [])
   | .storeReloading b => ({ s with reloading := b }, [])
@@ -146,7 +213,7 @@ def exec (s : St) : Micro → St × List Micro
     match s.retDone with
     | none => ({ s with reloading := false, active := false, pending := false }, [.endSupp, .readProg])
     | some false => ({ s with reloading := false, active := false, retDone := none,
-                              gBlocked := s.gBlocked + 1 }, [])
+                              gBlocked := s.gBlocked + 1, gLeft := s.mgrLeft }, [])
     | some true => ({ s with reloading := false, active := false, retDone := none,
                              gStore := s.gStore + 1 }, [])
   | .exitHold => ({ s with exited := true }, [])
@@ -269,11 +336,13 @@ inductive Act
   | closeMgr              -- the retirement published in pendingRetirementDone completes
   | closeG                -- a retirement some G is waiting for completes
   | gStore | gEnd | gRead | gWrite   -- a G runs its next section of clearReloadPending
+  | chooseRet (sc : RetScenario)     -- the environment fixes the circumstances of the next retirement
+  | tick (d : Nat)                   -- time passes; not beyond the completion time of an open retirement
   deriving DecidableEq, Repr
 
 /-- environment inputs; everything else is the system's own progress. -/
 def Act.isExternal : Act → Bool
-  | .sig _ | .swallow _ | .term | .cliSend => true
+  | .sig _ | .swallow _ | .term | .cliSend | .chooseRet _ | .tick _ => true
   | _ => false
 
 def step (s : St) (a : Act) : Option St :=
@@ -321,6 +390,10 @@ def step (s : St) (a : Act) : Option St :=
   | .gWrite =>
     if 0 < s.gWrite then
       some { (exec s .writeClr).1 with gWrite := s.gWrite - 1 } else none
+  | .chooseRet sc => if 0 ≤ sc.age then some { s with nextRet := sc } else none
+  | .tick d =>
+    if (s.retDone != some false || decide (d ≤ s.mgrLeft)) && (s.gBlocked == 0 || decide (d ≤ s.gLeft)) then
+      some { s with mgrLeft := s.mgrLeft - d, gLeft := s.gLeft - d } else none
 
 /-- run a schedule; `none` as soon as an action is not enabled. -/
 def runActs (s : St) : List Act → Option St
